@@ -284,6 +284,35 @@ v("break-c15-list-trim-cutset", "break", "C15", "FOLD", [
     (B, "\t\treturn strings.Join(strs, \", \"), nil\n", "\t\treturn strings.TrimRight(strings.Join(strs, \", \")+\", \", \", \"), nil\n"),
 ], "the joined list text trimmed with a cutset")
 
+v("break-c01-shift-eof-in-range", "break", "C01", "SHIFT-END", [
+    (P, "\tif next.Typ == lex.TEOF {\n\t\treturn false\n\t}\n\n\tif next.Typ == lex.TErr {\n\t\treturn false\n\t}\n\n\tcurr := p.nonTerminals[len(p.nonTerminals)-1]\n",
+        "\tif next.Typ == lex.TErr {\n\t\treturn false\n\t}\n\n\tcurr := p.nonTerminals[len(p.nonTerminals)-1]\n\tif next.Typ == lex.TEOF {\n\t\treturn curr.Typ == lex.TLSquare || curr.Typ == lex.TLCurly\n\t}\n"),
+], "end of input is shifted while a range bracket is open: the lexer reports it again and again")
+v("break-c01-print-child-twice", "break", "C01", "REC-ONCE", [
+    (RN, "\treturn fmt.Sprintf(\"%s(%s)\", toString[e.Op], e.Left)\n}\n\nfunc renderMustNot", "\tif len(fmt.Sprintf(\"%s\", e.Left)) == 0 {\n\t\treturn toString[e.Op] + \"()\"\n\t}\n\treturn fmt.Sprintf(\"%s(%s)\", toString[e.Op], e.Left)\n}\n\nfunc renderMustNot"),
+], "a printer formats its child twice on one path: exponential in the nesting depth")
+v("break-c01-reflect-len", "break", "C01", "PANIC-LIB", [
+    (V_, "func isLiteralExpr(in any) bool {", "func payloadLen(in any) int { return reflect.ValueOf(in).Len() }\n\nfunc isLiteralExpr(in any) bool {"),
+    (V_, "func validateLiteral(e *Expression) (err error) {\n\tif e == nil {\n\t\treturn nil\n\t}\n", "func validateLiteral(e *Expression) (err error) {\n\tif e == nil {\n\t\treturn nil\n\t}\n\tif payloadLen(e.Left) < 0 {\n\t\treturn errors.New(\"negative length\")\n\t}\n"),
+], "reflect.Value.Len on an untyped payload panics for numbers")
+v("break-c02-fill-placeholder-by-search", "break", "C02", "SQL-RESCAN", [
+    (RF, "\treturn fmt.Sprintf(\"%s SIMILAR TO %s\", left, right), nil\n}", "\treturn strings.Replace(left+\" SIMILAR TO ?\", \"?\", right, 1), nil\n}"),
+], "the pattern is put where a ? is found, and the column name may contain one")
+v("break-c10-render-without-error-check", "break", "C10", "ENTRY-TAIL", [
+    (("render.go"), "\te, err := Parse(in, opts...)\n\tif err != nil {\n\t\treturn \"\", err\n\t}\n\n\treturn postgres.Render(e)", "\te, _ := Parse(in, opts...)\n\treturn postgres.Render(e)"),
+], "ToPostgres renders whatever Parse returned without looking at its error")
+v("break-c11-value-test-below-not", "break", "C11", "WRAP-COMMUTE", [
+    (R, "func isChainedOrLiterals(in *expr.Expression)", "func negatedValue(in *expr.Expression) bool {\n\tif in.Op != expr.Not {\n\t\treturn false\n\t}\n\tinner, ok := in.Left.(*expr.Expression)\n\treturn ok && inner.Op == expr.Literal\n}\n\nfunc isChainedOrLiterals(in *expr.Expression)"),
+    (R, "\tif literals, ok := isChainedOrLiterals(value); ok && len(literals) > 1 {", "\tif negatedValue(value) {\n\t\treturn []any{expr.NOT(expr.Eq(term, value.Left.(*expr.Expression)))}, drop(nonTerminals, 1), true\n\t}\n\tif literals, ok := isChainedOrLiterals(value); ok && len(literals) > 1 {"),
+], "a production looks for a bare value below NOT, which NOT has already scoped when a default field is set")
+v("break-c14-error-text-with-address", "break", "C14", "FMT-ADDR", [
+    (P, "fmt.Errorf(\"multiple expressions left after parsing: %v\", p.stack)", "fmt.Errorf(\"multiple expressions left after parsing: %v\", struct{ items []any }{p.stack})"),
+], "the items are printed below an unexported field: fmt prints the pointers as addresses")
+v("break-c14-shared-scratch-in-global", "break", "C14", "PUR-G", [
+    (P, "var unescaper = strings.NewReplacer(`\\\\`, `\\`, `\\`, \"\")", "type scratch struct{ buf []byte }\n\nfunc (s *scratch) keep(v string) string {\n\ts.buf = append(s.buf[:0], v...)\n\treturn string(s.buf)\n}\n\nvar wordScratch = &scratch{}\n\nvar unescaper = strings.NewReplacer(`\\\\`, `\\`, `\\`, \"\")"),
+    (P, "expr.Lit(unescaper.Replace(token.Val))", "expr.Lit(wordScratch.keep(unescaper.Replace(token.Val)))"),
+], "a method writes through its receiver, and the receiver is a package-level object shared by all calls")
+
 def main():
     os.makedirs(OUT, exist_ok=True)
     for f in os.listdir(OUT):
